@@ -786,7 +786,47 @@ pub fn build_tri(lower: bool, n: usize, salt: u64) -> TriCase {
             }
         }
     }
-    let b = build::gauss(&mut rng, n, 1);
+    if rng.below(4) == 0 {
+        // exact zeros inside the triangle
+        for i in 0..n {
+            for j in 0..n {
+                if i != j && rng.below(2) == 0 {
+                    t[i * n + j] = 0.0;
+                }
+            }
+        }
+    }
+    // right-hand sides with exact zeros: columns of the identity, leading / trailing runs of zeros, sparse —
+    // the solution of a triangular system has zeros only on one side of the first / last non-zero of b
+    let mut b = build::gauss(&mut rng, n, 1);
+    match rng.below(6) {
+        0 => {
+            let k = rng.below(n);
+            for (i, v) in b.iter_mut().enumerate() {
+                *v = if i == k { 1.0 } else { 0.0 };
+            }
+        }
+        1 => {
+            let k = rng.below(n);
+            for v in b.iter_mut().take(k) {
+                *v = 0.0;
+            }
+        }
+        2 => {
+            let k = rng.below(n);
+            for v in b.iter_mut().skip(k + 1) {
+                *v = 0.0;
+            }
+        }
+        3 => {
+            for v in b.iter_mut() {
+                if rng.below(2) == 0 {
+                    *v = 0.0;
+                }
+            }
+        }
+        _ => {}
+    }
     TriCase { lower, n, t, b }
 }
 
